@@ -37,6 +37,7 @@ import (
 	"strconv"
 	"strings"
 	"sync"
+	"sync/atomic"
 	"time"
 
 	"github.com/nuetzliches/hookaido/internal/app"
@@ -394,6 +395,7 @@ func (t *wireRecorder) RoundTrip(req *http.Request) (*http.Response, error) {
 var (
 	cfgMu    sync.Mutex
 	cfgCache = map[string]*dispatcher.HMACSigningConfig{}
+	warmed   atomic.Int64 // earlier deliveries made on a judged delivery's deliverer
 )
 
 // signingConfig = what app.buildDispatchRoutes hands to the dispatcher for the first deliver block of the first route.
@@ -517,6 +519,40 @@ func execOut(r *row, p *prepared) (obs, error) {
 	} else {
 		ctx, cancel := context.WithTimeout(context.Background(), 10*time.Second)
 		defer cancel()
+		if r.Kind != "redir" && c.Variant%2 == 1 {
+			// the running gateway keeps ONE deliverer and ONE signing configuration per target for its whole life: the
+			// judged delivery is preceded by earlier deliveries of the same deliverer at instants around the window
+			// boundaries that lie before it (in chronological order); whatever they did must not influence the choice
+			// made at the judged instant
+			var inst []int64
+			for k := range c.FromS {
+				inst = append(inst, c.FromS[k]-1, c.FromS[k])
+				if c.UntilS[k] != 0 {
+					inst = append(inst, c.UntilS[k]-1)
+				}
+			}
+			sort.Slice(inst, func(i, j int) bool { return inst[i] < inst[j] })
+			var warm []int64
+			for _, t := range inst {
+				if t < c.NowS && (len(warm) == 0 || warm[len(warm)-1] != t) {
+					warm = append(warm, t)
+				}
+			}
+			if len(warm) > 4 {
+				warm = warm[len(warm)-4:]
+			}
+			for _, t := range warm {
+				wt := time.Unix(t, 0).In(loc)
+				d.Now = func() time.Time { return wt }
+				_ = d.Deliver(ctx, dispatcher.Delivery{ID: "m0", Target: c.URL, URL: c.URL, Method: c.Method,
+					Header: http.Header{"Content-Type": []string{"application/octet-stream"}}, Body: []byte("earlier"), Sign: sign})
+			}
+			d.Now = func() time.Time { return now }
+			rec.mu.Lock()
+			rec.reqs = nil
+			rec.mu.Unlock()
+			warmed.Add(int64(len(warm)))
+		}
 		res := d.Deliver(ctx, dispatcher.Delivery{ID: "m1", Target: c.URL, URL: c.URL, Method: c.Method,
 			Header: http.Header{"Content-Type": []string{"application/octet-stream"}, "X-Other": []string{"1"}}, Body: p.body, Sign: sign})
 		o.Status = res.StatusCode
@@ -1083,6 +1119,7 @@ func run(args []string) error {
 		keys = append(keys, k)
 	}
 	sort.Strings(keys)
+	cnt.m["out_earlier_deliveries_same_deliverer"] = int(warmed.Load())
 	b, _ := json.Marshal(map[string]any{"rows": len(lines), "events": cnt.m["events"], "counters": cnt.m})
 	fmt.Println(string(b))
 	return nil
